@@ -1,1 +1,75 @@
-fn main() { eprintln!("engine not built yet"); std::process::exit(2); }
+//! dbx — history / crash-image / seam-schedule enumeration on the real sierradb `Database`.
+mod c01;
+mod harness;
+mod pure;
+
+use std::time::Duration;
+
+use serde::Serialize;
+use serde::de::DeserializeOwned;
+use serde_json::{Value, json};
+use vcommon::workers::{Merged, WorkerOut, parent_run, worker_loop, worker_spec};
+use vcommon::{Args, Ctx};
+
+pub struct Plan<C> {
+    pub property: &'static str,
+    pub level: &'static str,
+    pub cases: Vec<C>,
+    pub cap: Duration,
+}
+
+/// Generic driver: parent / worker / replay for a property whose cases are independent.
+pub fn drive<C: Serialize + DeserializeOwned + Sync + Clone>(
+    args: Args,
+    plan: Plan<C>,
+    run: fn(&C, &mut WorkerOut),
+    finish: impl FnOnce(&Merged, usize) -> (Value, Vec<String>),
+) -> ! {
+    let order = vcommon::seeded_order(plan.cases.len(), vcommon::seed_from_env());
+    if let Some(spec) = worker_spec(&args.extra) {
+        let cases = &plan.cases;
+        worker_loop(&spec, &order, |idx, out| run(&cases[idx], out));
+    }
+    let mut ctx = Ctx::new(plan.property, args.tier, plan.level);
+    if let Some(rp) = &args.replay {
+        ctx.replay_mode = true;
+        let mut v = vcommon::load_replay(rp);
+        if v.get("died").is_some() {
+            v = v["case"].clone();
+        }
+        let case: C = serde_json::from_value(v.clone()).unwrap_or_else(|e| vcommon::machinery_fail(&format!("replay case does not parse: {e}")));
+        let mut out = WorkerOut { collected: Some(vec![]), ..Default::default() };
+        run(&case, &mut out);
+        let got = out.collected.take().unwrap();
+        if got.is_empty() {
+            println!("replay: the case agrees with the oracle");
+        }
+        for (k, d, c) in got {
+            println!("replay: {d}");
+            ctx.violation(&k, &d, c);
+        }
+        ctx.finish(json!({"states": 1, "transitions": 1, "traces_validated_against_impl": 1, "evaluations": 1, "distinct_nontrivial": 2, "rule": "replay", "samples": [v]}), vec![]);
+    }
+    let wargs = vec![plan.property.to_string(), args.tier.as_str().to_string()];
+    let cases = &plan.cases;
+    let order_ref = &order;
+    let merged = parent_run(&ctx, cases.len(), &wargs, plan.cap, &format!("{}/process-died", plan.property), |pos| {
+        serde_json::to_value(&cases[order_ref[pos]]).unwrap_or(Value::Null)
+    });
+    if merged.capped {
+        ctx.note(format!("wall cap {:?} hit: {} of {} cases executed", plan.cap, merged.cases_done, cases.len()));
+    }
+    let (cov, assumptions) = finish(&merged, cases.len());
+    ctx.finish(cov, assumptions)
+}
+
+fn main() {
+    vcommon::install_quiet_panic_hook();
+    let args = vcommon::parse_args();
+    match args.property.as_str() {
+        "C01" => c01::run(args),
+        "C23" => pure::c23(args),
+        "C25" => pure::c25(args),
+        p => vcommon::machinery_fail(&format!("dbx does not serve property {p}")),
+    }
+}
